@@ -28,3 +28,52 @@ PROPS["C18"] = {
     ],
     "explanation": "Deductive: full functional contract of AddRange/insertRange (sorted, disjoint, non-empty, exact union, refinement of old classes and of the added range, frame) discharged for all inputs and all iterations by SMT. The bounded IVL run evaluates the same contract on the real code for all interval sequences of the stated scope.",
 }
+
+
+def prepare_expand(run):
+    import expand
+    run.carriers = expand.expand(run)
+
+
+STDLIB = "{verif}/contracts/stdlib.go"
+UTIL_CONTRACTS = "{repo}/internal/util/zz_contracts_verif.go"
+UTILGEN_CONTRACTS = "{repo}/internal/util/gen/golang/zz_contracts_verif.go"
+MD_CONTRACTS = "{repo}/internal/util/md/zz_contracts_verif.go"
+
+
+def extra_parametric_util(run):
+    import expand
+    diffs = expand.parametricity(run.carriers, "util/litconv.go")
+    v = [{"id": "parametricity:util/litconv.go", "what": "generated util functions differ between carriers: %s" % diffs, "input": None}] if diffs else []
+    return {"name": "parametricity(util/litconv.go)", "cases": len(run.carriers), "violations": v,
+            "note": "the expanded run-time functions are textually identical across all carrier grammars and flag sets"}
+
+
+PROPS["C20"] = {
+    "level": "proof",
+    "prepare": prepare_expand,
+    "govc": [
+        {"dir": "{repo}", "pkgs": ["./internal/util"], "contracts": [STDLIB, UTIL_CONTRACTS], "prop": "C20"},
+        {"dir": "{gen}/recover", "pkgs": ["./util"], "contracts": [STDLIB, UTILGEN_CONTRACTS], "prop": "C20"},
+    ],
+    "extra": [extra_parametric_util],
+    "trusted_base": COMMON_TRUSTED + ["text/template expansion of the util template (the expanded package is what is verified)"],
+    "assumptions": [
+        "utf8.DecodeRune, strconv.ParseInt, strconv.ParseUint: trusted contracts (contracts/stdlib.go); the plain-character case of a rune literal is by definition the rune utf8.DecodeRune returns",
+        "the value of an escaped rune literal is transcribed from the Go specification (spec functions escapeVal etc. in the contract file)",
+        "that gocc hands LitToRune exactly the bytes of the char_lit token is the front-end scanner's contract (C13/C14)",
+    ],
+    "explanation": "Both copies of the decoder (internal/util/litconv.go and the expansion of the util template) are proved to return Go's value for every valid rune literal, with no panic; IntValue/UintValue are proved to be exactly the strconv call on string(lit).",
+}
+
+PROPS["C19"] = {
+    "level": "proof",
+    "govc": [{"dir": "{repo}", "pkgs": ["./internal/util/md"], "contracts": [STDLIB, MD_CONTRACTS], "prop": "C19"}],
+    "trusted_base": COMMON_TRUSTED,
+    "assumptions": [
+        "ghost axioms of loadMd (Code(0)=false, Code(i+1) = Code(i) xor Fence(i)) are a recursive definition, hence conservative",
+        "precondition [bare]: fence starts do not overlap or touch (the property quantifies over bare ``` fences with no ``` inside prose or code)",
+        "that blanked text and the concatenated blocks generate the same packages is layout-invariance (C13), not re-proved here",
+    ],
+    "explanation": "loadMd is proved, for all rune sequences with bare fences, to keep the length, blank fences and prose (keeping newlines) and keep code runes at identical indices; hence line and rune column of code text are those of the markdown file.",
+}
